@@ -21,6 +21,8 @@ type Replay struct {
 	ReplayLog  string            `json:"replay_log,omitempty"`
 	Note       string            `json:"note"`
 	PerSolver  map[string]string `json:"per_solver,omitempty"`
+	TestSource string            `json:"replay_test_source,omitempty"`
+	PkgDir     string            `json:"replay_pkg_dir,omitempty"`
 }
 
 func buildReplay(prog *Program, cs *ContractSet, prop string, r ObResult, timeout int) *Replay {
